@@ -194,7 +194,7 @@ func peerIDClass(got, want [20]byte) string {
 		}
 	}
 	if same16 {
-		return "tail4-overwritten"
+		return "tail4"
 	}
 	return "other"
 }
